@@ -6,7 +6,12 @@ import clauses as C
 import rows as R
 
 
-def _grid(names):
+def _grid(names, contracts=()):
+    # TLC's own grid sweep multiplies excesses by 10^4: only for rows with small integers
+    for c in contracts:
+        for r in c["a"] + c["g"]:
+            if max([abs(x) for x in r["co"].values()] + [abs(r["c"]), r["k"]]) > 20000:
+                return 0
     return 2 if len(names) <= 4 else (1 if len(names) <= 6 else 0)
 
 
@@ -38,8 +43,10 @@ def _finish(ev, res_obj, exc, msg, groups, clause_fn):
     for k in ("s", "t"):
         if k in ev:
             names.add(ev[k])
+    for m in ev.get("maps", []):
+        names |= set(m)
     ev["names"] = sorted(names)
-    ev["g"] = _grid(ev["names"])
+    ev["g"] = _grid(ev["names"], [ev[k] for k in ("c1", "c2", "res") if k in ev])
     if res_obj is not None and ev["ok"]:
         for grp in groups:
             cls = clause_fn(grp)
